@@ -1464,13 +1464,6 @@ FROM (
                 c.data_type == TimePeriod for c in ds.components.values() if c.role == Role.MEASURE
             )
 
-            if has_tp and self.current_assignment:
-                out_ds = self.output_datasets.get(self.current_assignment)
-                if out_ds is not None:
-                    for comp in out_ds.components.values():
-                        if comp.data_type == TimePeriod:
-                            comp.data_type = Date
-
             def _dateadd_expr(col_ref: str) -> str:
                 if has_tp:
                     return f"vtl_tp_dateadd(vtl_period_parse({col_ref}), {shift_sql}, {period_sql})"
@@ -1696,14 +1689,6 @@ FROM (
                     col_name = self._resolve_udo_name(self._get_node_value(assignment.left))
                     expr_sql = self.visit(assignment.right)
                     calc_exprs[col_name] = expr_sql
-                    if "vtl_tp_dateadd" in expr_sql and self.current_assignment:
-                        out_ds = self.output_datasets.get(self.current_assignment)
-                        if (
-                            out_ds
-                            and col_name in out_ds.components
-                            and out_ds.components[col_name].data_type == TimePeriod
-                        ):
-                            out_ds.components[col_name].data_type = Date
 
         select_cols: List[str] = []
         for name in ds.components:
